@@ -1081,7 +1081,18 @@ var verifHosts = []verifHost{
 	{"ends-with-call", []string{"a = [Sym.a]", "dbtp a", "b = a.first", "dbtp b", "a.push(1)"}, []int{1, 2, 3, 4}},
 	{"guard-clause", []string{"def h(v)", "return 0 if v.nil?", "w = v", "dbtp w", "w", "end", "r = h(Sym.a)", "dbtp r"}, []int{1, 2, 3, 4, 7, 8}},
 	{"modifier-unless-then-array", []string{"x = Sym.a", "y = 1 unless x.nil?", "[1, 2].each do |e|", "dbtp e", "end", "dbtp y"}, []int{1, 2, 3, 4, 6}},
+	// hosts 12..: index expressions, splats, keyword errors, operator assignments, loops, case/when
+	{"index-expressions", []string{"a = [Sym.a, 1]", "b = a[0]", "dbtp b", "h = {k: Sym.a}", "c = h[:k]", "dbtp c", "s = \"abc\"", "d = s[0]", "dbtp d", "a[1] = 2.5", "dbtp a"}, []int{1, 2, 3, 4, 5, 6, 7, 8, 9, 10, 11}},
+	{"splat-method", []string{"def sp(*r, **o)", "dbtp r", "r", "end", "q = sp(Sym.a, 1)", "dbtp q"}, []int{1, 2, 5, 6}},
+	{"keyword-errors", []string{"def kw(k: 1)", "k", "end", "kw(1)", "kw(k: Sym.a, j: 3)", "r = kw(k: Sym.a)", "dbtp r"}, []int{1, 4, 5, 6, 7}},
+	{"operator-assignments", []string{"x = 1", "x += 2", "dbtp x", "y = nil", "y ||= Sym.a", "dbtp y", "w = x > 1 ? Sym.a : :b", "dbtp w"}, []int{1, 2, 3, 4, 5, 6, 7, 8}},
+	{"while-and-case-when", []string{"i = 0", "while i < 3", "i += 1", "end", "dbtp i", "x = Sym.a", "case x", "when 1", "dbtp x", "else", "dbtp x", "end"}, []int{1, 2, 3, 5, 6, 7, 9, 11}},
+	{"nested-index", []string{"m = [[Sym.a, \"s\"], [2.5]]", "n = m[0][1]", "dbtp n", "dbtp m"}, []int{1, 2, 3, 4}},
+	{"valueless-guard-clause", []string{"def pick(flag)", "label = \"none\"", "return if flag", "label.length", "end", "width = pick(Sym.a)", "dbtp width", "\"abc\".tr(width, \"-\")"}, []int{1, 2, 3, 4, 6, 7, 8}},
+	{"explicit-returns", []string{"def rr(v)", "w = 1.5", "return w unless v", "t = :s", "return", "end", "q = rr(Sym.a)", "dbtp q"}, []int{1, 2, 3, 4, 7, 8}},
 }
+
+const verifOldHosts, verifOldFragments = 12, 8
 
 var verifFragments = []struct{ name, text string }{
 	{"conditional", "qq = nil\nif qq.nil?\nqq\nend\n"},
@@ -1092,6 +1103,16 @@ var verifFragments = []struct{ name, text string }{
 	{"modifier-if", "fq = nil\nfr = 1 if fq.nil?\n"},
 	{"while-loop", "wi = 0\nwhile wi < 3\nwi = wi + 1\nend\n"},
 	{"hash-and-index", "hh = {k: 1}\nhv = hh[:k]\n"},
+	// fragments 8..
+	{"index-read", "ia = [1, 2]\nib = ia[0]\n"},
+	{"string-index", "sa = \"abc\"[1]\n"},
+	{"index-write", "wa = [1]\nwa[0] = \"s\"\n"},
+	{"failing-call", "fz = [1].first(\"s\")\n"},
+	{"unless-else", "uq = 1\nunless uq.nil?\nuq\nelse\nuq\nend\n"},
+	{"case-when", "cw = 1\ncase cw\nwhen 1\ncw\nend\n"},
+	{"ternary", "tq = true ? 1 : \"s\"\n"},
+	{"or-assign", "oq = nil\noq ||= 1\n"},
+	{"brace-block", "[1, 2].each { |bb| bb }\n"},
 }
 
 func verifJoinLines(lines []string) string {
@@ -1137,8 +1158,13 @@ func VerifInterfere(n int) {
 	if n >= 1 {
 		nh, nf = len(verifHosts), len(verifFragments)
 	}
-	h := verifHosts[verifapi.Concrete(verifapi.Int("host", 0, nh-1))]
-	f := verifFragments[verifapi.Concrete(verifapi.Int("fragment", 0, nf-1))]
+	hi := verifapi.Concrete(verifapi.Int("host", 0, nh-1))
+	fi := verifapi.Concrete(verifapi.Int("fragment", 0, nf-1))
+	// quick tier (n == 1): the original 12 x 8 product in full, a quarter of the pairs that
+	// involve a newer host or fragment; thorough (n == 2): every pair
+	verifapi.Assume(n != 1 || (hi < verifOldHosts && fi < verifOldFragments) || (hi+fi)%4 == 0)
+	h := verifHosts[hi]
+	f := verifFragments[fi]
 	at := h.inner[verifapi.Concrete(verifapi.Int("boundary", 0, len(h.inner)-1))]
 	verifHostSyms(h)
 	a := verifJoinLines(h.lines)
@@ -1315,7 +1341,9 @@ var verifPerm3 = [][]int{{0, 1, 2}, {0, 2, 1}, {1, 0, 2}, {1, 2, 0}, {2, 0, 1}, 
 // solver-chosen permutation; the outputs must be identical. Shapes: required and defaulted
 // keywords, one keyword missing, an undeclared keyword, a leading positional.
 func VerifKwOrder(n int) {
-	target := verifapi.Concrete(verifapi.Int("target", 0, 1)) // 0 user-defined, 1 configured (Sym.kw)
+	// 0 user-defined (leading positional), 1 configured (Sym.kw), 2 user-defined keyword-only, 3 keyword-only on a union of
+	// two configured classes (La|Mo), 4 keyword-only on a union of instances of two user classes
+	target := verifapi.Concrete(verifapi.Int("target", 0, 4))
 	shape := verifapi.Concrete(verifapi.Int("shape", 0, 3))   // 0 all given, 1 one missing, 2 undeclared extra, 3 defaulted one omitted
 	perm := verifPerm3[verifapi.Concrete(verifapi.Int("perm", 1, 5))]
 	s := verifInstallSym("a", "b")
@@ -1335,26 +1363,53 @@ func VerifKwOrder(n int) {
 		kws = []string{"ka: Sym.a", "kb: Sym.b", ""} // defaulted kc omitted
 	}
 	call := func(order []int) string {
-		args := "1"
+		args := ""
+		if target <= 1 {
+			args = "1"
+		}
 		for _, i := range order {
 			if kws[i] != "" {
-				args += ", " + kws[i]
+				if args != "" {
+					args += ", "
+				}
+				args += kws[i]
 			}
 		}
-		if target == 1 {
+		switch target {
+		case 1:
 			return "r = Sym.kw(" + args + ")\ndbtp r\n"
+		case 2:
+			return "r = mq(" + args + ")\ndbtp r\n"
+		case 3:
+			return "d = Rig.device\nr = d.tri(" + args + ")\ndbtp r\n"
+		case 4:
+			return "x = true ? Ua.new : Ub.new\nr = x.f(" + args + ")\ndbtp r\n"
 		}
 		return "r = mm(" + args + ")\ndbtp r\n"
 	}
 	pre := ""
-	if target == 0 {
+	switch target {
+	case 0:
 		pre = "def mm(p, ka:, kb:, kc: 2)\ndbtp ka\ndbtp kb\ndbtp kc\np\nend\n"
+	case 2:
+		pre = "def mq(ka:, kb:, kc: 2)\ndbtp ka\ndbtp kb\ndbtp kc\nka\nend\n"
+	case 3:
+		filesW := ""
+		for _, f := range [][2]string{{"la", verifCfgLa}, {"mo", verifCfgMo}, {"rig", verifCfgRig}} {
+			verifapi.SetFile(".ti-config/"+f[0]+".json", f[1])
+			filesW += f[0] + ".json\x1e" + f[1] + "\x1d"
+		}
+		verifapi.Witness("extra-config-files", filesW)
+		verifapi.VfsOnly(".ti-config")
+		builtin.VerifLoadConfigAgain()
+	case 4:
+		pre = "class Ua\ndef f(ka:, kb:, kc: 2)\nka\nend\nend\nclass Ub\ndef f(ka:, kb:, kc: 2)\nkb\nend\nend\n"
 	}
 	a := pre + call([]int{0, 1, 2})
 	b := pre + call(perm)
 	outA, outB := verifRunTwo(a, b)
 	verifapi.Reach("ran")
-	name := []string{"user-defined-method", "configured-method"}[target] + "/" + []string{"all-keywords-given", "required-keyword-missing", "undeclared-keyword", "defaulted-keyword-omitted"}[shape]
+	name := []string{"user-defined-method", "configured-method", "user-defined-method-keyword-only-call", "union-of-configured-classes-keyword-only-call", "union-of-user-classes-keyword-only-call"}[target] + "/" + []string{"all-keywords-given", "required-keyword-missing", "undeclared-keyword", "defaulted-keyword-omitted"}[shape]
 	verifExpectShift("C14-order", "C14/output-depends-on-keyword-order/"+name, a, b, outA, outB, 1000, 0)
 }
 
@@ -1746,7 +1801,8 @@ var verifBlockNames = []string{"each-do-one-param", "each-braces-one-param", "ea
 	"times-integer-param", "each_char-string-param", "shadowed-outer-variable-restored", "block-local-not-visible-after", "nested-blocks", "no-params", "range-each",
 	"shadowing-block-containing-a-block", "shadowing-brace-block-containing-a-brace-block", "inner-parameter-shadows-outer-block-local", "inner-parameter-shadows-outer-parameter",
 	"pair-destructured", "two-pairs-destructured", "collect-item", "sort-two-params", "merge-three-params", "each_index", "hash-collect-item", "reject-unify",
-	"one-param-on-pairs", "ragged-pairs-destructured", "hash-each-key-and-value", "each_with_index-on-pairs"}
+	"one-param-on-pairs", "ragged-pairs-destructured", "hash-each-key-and-value", "each_with_index-on-pairs",
+	"two-surplus-parameters-shadowing", "hash-each-two-surplus-parameters", "each_char-two-surplus-parameters", "times-three-surplus-parameters"}
 
 func VerifBlocks(n int) {
 	sk := verifapi.Concrete(verifapi.Int("skeleton", 0, len(verifBlockNames)-1))
@@ -1847,6 +1903,22 @@ func VerifBlocks(n int) {
 	case 27:
 		src = "a = [[Sym.a, Sym.b]]\na.each_with_index do |m, i|\ndbtp m\ndbtp i\nend\n"
 		exps = []ex{{"C17-p1", 3, verifArrayAlts([]int{s.ka, s.kb}), "block-parameter-type-wrong"}, {"C17-p2", 4, []string{"Integer"}, "block-parameter-type-wrong"}}
+	case 28:
+		src = "c = Sym.b\na = [Sym.a, 1]\na.each do |x, y, c|\ndbtp y\ndbtp c\nend\ndbtp c\n"
+		exps = []ex{{"C17-p1", 4, []string{"NilClass"}, "surplus-parameter-not-nil"}, {"C17-p2", 5, []string{"NilClass"}, "surplus-parameter-not-nil"},
+			{"C17-p3", 7, []string{verifKN(s.kb)}, "shadowed-variable-not-restored"}}
+	case 29:
+		src = "c = Sym.b\nh = {k: Sym.a}\nh.each do |k, v, b, c|\ndbtp b\ndbtp c\nend\ndbtp c\n"
+		exps = []ex{{"C17-p1", 4, []string{"NilClass"}, "surplus-parameter-not-nil"}, {"C17-p2", 5, []string{"NilClass"}, "surplus-parameter-not-nil"},
+			{"C17-p3", 7, []string{verifKN(s.kb)}, "shadowed-variable-not-restored"}}
+	case 30:
+		src = "c = Sym.b\nx = Sym.a\n\"ab\".each_char do |ch, b, c|\ndbtp ch\ndbtp b\ndbtp c\nend\ndbtp c\n"
+		exps = []ex{{"C17-p1", 4, []string{"String"}, "block-parameter-type-wrong"}, {"C17-p2", 5, []string{"NilClass"}, "surplus-parameter-not-nil"},
+			{"C17-p3", 6, []string{"NilClass"}, "surplus-parameter-not-nil"}, {"C17-p4", 8, []string{verifKN(s.kb)}, "shadowed-variable-not-restored"}}
+	case 31:
+		src = "x = Sym.a\ny = Sym.b\n3.times do |i, j, k, l|\ndbtp j\ndbtp k\ndbtp l\nend\n"
+		exps = []ex{{"C17-p1", 4, []string{"NilClass"}, "surplus-parameter-not-nil"}, {"C17-p2", 5, []string{"NilClass"}, "surplus-parameter-not-nil"},
+			{"C17-p3", 6, []string{"NilClass"}, "surplus-parameter-not-nil"}}
 	case 15:
 		src = "a = [Sym.a]\nb = [Sym.b]\na.each do |e|\nb.each do |e|\ndbtp e\nend\ndbtp e\nend\ndbtp a\n"
 		exps = []ex{{"C17-p1", 5, []string{verifKN(s.kb)}, "block-parameter-does-not-shadow"}, {"C17-p2", 7, []string{verifKN(s.ka)}, "shadowed-variable-not-restored"},
@@ -2419,7 +2491,8 @@ const verifCfgGc = `{"frame": "Builtin", "class": "Gc", "extends": ["Ch"], "inst
 const verifCfgKwMethods = `[
  {"name": "set", "arguments": [{"type": ["Int"]}, {"type": ["Int"], "key": "level:"}], "return_type": {"type": ["Int"]}},
  {"name": "dim", "arguments": [{"type": ["Int"], "key": "level:"}], "return_type": {"type": ["Int"]}},
- {"name": "fade", "arguments": [{"type": ["Int"], "key": "from:"}, {"type": ["Int"], "key": "to:", "is_default": true}], "return_type": {"type": ["Int"]}}]`
+ {"name": "fade", "arguments": [{"type": ["Int"], "key": "from:"}, {"type": ["Int"], "key": "to:", "is_default": true}], "return_type": {"type": ["Int"]}},
+ {"name": "tri", "arguments": [{"type": ["Int"], "key": "ka:"}, {"type": ["String"], "key": "kb:"}, {"type": ["Int"], "key": "kc:", "is_default": true}], "return_type": {"type": ["Int"]}}]`
 const verifCfgLa = `{"frame": "Builtin", "class": "La", "instance_methods": ` + verifCfgKwMethods + `, "class_methods": []}`
 const verifCfgMo = `{"frame": "Builtin", "class": "Mo", "instance_methods": ` + verifCfgKwMethods + `, "class_methods": []}`
 const verifCfgRig = `{"frame": "Builtin", "class": "Rig", "instance_methods": [], "class_methods": [
@@ -2506,6 +2579,58 @@ func VerifConfigOrder(n int) {
 	verifapi.Reach("ran")
 	verifapi.Classify("C19/output-depends-on-config-file-layout/" + name)
 	verifapi.Assert(outRef == outOther, "C19-same-output")
+}
+
+// ---- C21 at program level: every place of a configuration file that holds a type ----
+
+const verifCfgNotationCompact = `{"frame": "Builtin", "class": "Na", "instance_methods": [
+ {"name": "m1", "arguments": [{"type": ["?Int"]}], "block_parameters": ["?Int", "[String]", "Int|Float"], "return_type": {"type": ["[Int]"]}},
+ {"name": "m2", "arguments": [{"type": ["*String"]}], "return_type": {"type": ["?String"]}},
+ {"name": "m3", "arguments": [{"type": ["Int|String"]}, {"type": ["[Float]"], "key": "k:"}], "return_type": {"type": ["Int|NilClass"]}}],
+ "class_methods": [{"name": "new", "arguments": [], "return_type": {"type": ["Na"]}},
+ {"name": "cm", "arguments": [{"type": ["?String"]}], "block_parameters": ["[Int]"], "return_type": {"type": ["?Float"]}}],
+ "constants": [{"name": "LIM", "return_type": {"type": ["?Int"]}}],
+ "instance_properties": [{"name": "prop", "type": ["[String]"], "access": "reader"}]}`
+const verifCfgNotationNamed = `{"frame": "Builtin", "class": "Nb", "instance_methods": [
+ {"name": "m1", "arguments": [{"type": ["Int"], "is_default": true}], "block_parameters": ["OptionalInt", "StringArray", "Number"], "return_type": {"type": ["IntArray"]}},
+ {"name": "m2", "arguments": [{"type": ["String"], "is_asterisk": true}], "return_type": {"type": ["OptionalString"]}},
+ {"name": "m3", "arguments": [{"type": ["Int", "String"]}, {"type": ["FloatArray"], "key": "k:"}], "return_type": {"type": ["Int", "NilClass"]}}],
+ "class_methods": [{"name": "new", "arguments": [], "return_type": {"type": ["Nb"]}},
+ {"name": "cm", "arguments": [{"type": ["String"], "is_default": true}], "block_parameters": ["IntArray"], "return_type": {"type": ["OptionalFloat"]}}],
+ "constants": [{"name": "LIM", "return_type": {"type": ["OptionalInt"]}}],
+ "instance_properties": [{"name": "prop", "type": ["StringArray"], "access": "reader"}]}`
+
+const verifNotationProgram = "a = Na.new\na.m1(1) do |x, y, z|\ndbtp x\ndbtp y\ndbtp z\nend\nr1 = a.m1\ndbtp r1\na.m1(\"s\")\nr2 = a.m2(\"a\", \"b\")\ndbtp r2\na.m2(1)\n" +
+	"r3 = a.m3(Sym.a, k: [1.5])\ndbtp r3\na.m3(1.5)\nr4 = Na.cm do |q|\ndbtp q\nend\ndbtp r4\nNa.cm(1)\nw = Na::LIM\ndbtp w\nv = a.prop\ndbtp v\n"
+
+// VerifNotationSites: two generated classes whose declarations are the same, written once in
+// compact notation (?T, [T], A|B, *T) and once with the named forms / flags, in every place of
+// a configuration file that holds a type (arguments, keyword arguments, return types, block
+// parameters, constants, properties); loaded by the real loader; the same program run against
+// each must print the same lines apart from the class name.
+func VerifNotationSites(n int) {
+	s := verifInstallSym("a")
+	verifapi.WitnessList("Sym.a", verifKN(s.ka))
+	filesW := ""
+	for _, f := range [][2]string{{"na", verifCfgNotationCompact}, {"nb", verifCfgNotationNamed}} {
+		verifapi.SetFile(".ti-config/"+f[0]+".json", f[1])
+		filesW += f[0] + ".json\x1e" + f[1] + "\x1d"
+	}
+	verifapi.Witness("extra-config-files", filesW)
+	verifapi.VfsOnly(".ti-config")
+	builtin.VerifLoadConfigAgain()
+	a := verifNotationProgram
+	b := strings.ReplaceAll(a, "Na", "Nb")
+	verifapi.Witness("srcA", a)
+	verifapi.Witness("srcB", b)
+	verifapi.Witness("rename-from", "Na")
+	verifapi.Witness("rename-to", "Nb")
+	outA, outB := verifRunTwo(a, b)
+	verifapi.Reach("ran")
+	verifapi.Witness("engine-output-compact", outA)
+	verifapi.Witness("engine-output-named", outB)
+	verifapi.Classify("C21/compact-and-named-notation-differ-in-a-configuration-file")
+	verifapi.Assert(outB == strings.ReplaceAll(outA, "Na", "Nb"), "C21-sites")
 }
 
 // ---- C07 / C08 at program level: calls of real configured methods ----
